@@ -575,6 +575,7 @@ class Oracle:
         nil = False
         if node.xsi_nil is not None:
             v = node.xsi_nil.strip()
+            if v in ('1', '0'): self.flags.add('nil-numeric')
             if v not in ('true', 'false', '1', '0'): tags.add('nil-lexical')
             elif not d.nillable: tags.add('nil-notnillable')
             elif v in ('false', '0'): self.flags.add('nil-false-on-nillable')
